@@ -12,7 +12,15 @@ import (
 	"context"
 	"encoding/json"
 	"fmt"
+	"go/ast"
+	"go/parser"
+	"go/token"
 	"os"
+	"path/filepath"
+	"runtime"
+	"strings"
+	"sync"
+	"sync/atomic"
 	"time"
 
 	cl "github.com/samsarahq/thunder/concurrencylimiter"
@@ -21,13 +29,13 @@ import (
 func init() { register("C20", runC20) }
 
 type c20Prog struct {
-	Kind     string `json:"kind"`     // "main" | "releaser"
-	Holder   int    `json:"holder"`   // which main this belongs to
-	TRs      []int  `json:"trs"`      // for main: nesting depth of each TemporarilyRelease call (0 = plain f)
-	Releases int    `json:"releases"` // number of release() calls at the end of main / in the releaser
-	Mode     string `json:"mode"`     // "limited" | "nolimiter" | "cancelled" | "reentrant" (Acquire on the context of the previous holder)
+	Kind     string `json:"kind"`           // "main" | "releaser"
+	Holder   int    `json:"holder"`         // which main this belongs to
+	TRs      []int  `json:"trs"`            // for main: nesting depth of each TemporarilyRelease call (0 = plain f)
+	Releases int    `json:"releases"`       // number of release() calls at the end of main / in the releaser
+	Mode     string `json:"mode"`           // "limited" | "nolimiter" | "cancelled" | "reentrant" (Acquire on the context of the previous holder)
 	Late     bool   `json:"late,omitempty"` // releaser: starts only after its holder's own goroutine has finished
-	PanicAt  int    `json:"panic_at"` // 1-based index of the TemporarilyRelease call whose innermost function panics (recovered by the caller); 0: none
+	PanicAt  int    `json:"panic_at"`       // 1-based index of the TemporarilyRelease call whose innermost function panics (recovered by the caller); 0: none
 }
 
 type c20Scenario struct {
@@ -426,13 +434,256 @@ func c20Corpus() []c20Scenario {
 	}}
 }
 
+// c20Free: free-running goroutines (no gates) on the real limiter, with an independent count of who is between
+// Acquire and release: (a) a context cancelled while its Acquire is blocked on a full limiter: the call returns,
+// and no token is taken for it later; (b) With on a context that already carries a limiter: the inner limiter has
+// its own tokens (a parent holding the outer limiter's only token fans out under an inner one); (c) release called
+// from two goroutines at once, and racing with a TemporarilyRelease on the same holder.
+func c20Free(c *Ctx, r *Rand, rounds int) {
+	rep := c.Rep
+	within := func(d time.Duration, f func()) bool {
+		done := make(chan struct{})
+		go func() { f(); close(done) }()
+		select {
+		case <-done:
+			return true
+		case <-time.After(d):
+			return false
+		}
+	}
+	for round := 0; round < rounds && !rep.ShouldStop(); round++ {
+		n := 1 + r.Intn(3)
+		cs := map[string]interface{}{"free_running": true, "limit": n, "round": round}
+		// (a) cancel while blocked
+		{
+			base := cl.With(context.Background(), n)
+			var rels []func()
+			for i := 0; i < n; i++ {
+				_, rel := cl.Acquire(base)
+				rels = append(rels, rel)
+			}
+			cctx, cancel := context.WithCancel(base)
+			returned := make(chan struct{})
+			var lateRel func()
+			go func() {
+				_, lateRel = cl.Acquire(cctx)
+				close(returned)
+			}()
+			time.Sleep(time.Duration(50+r.Intn(300)) * time.Microsecond)
+			cancel()
+			select {
+			case <-returned:
+			case <-time.After(2 * time.Second):
+				rep.Fail("impl_ne_spec", nil, cs, map[string]interface{}{"what": "free-running: an Acquire blocked on a full limiter did not return after its context was cancelled"})
+				for _, rel := range rels {
+					rel()
+				}
+				return
+			}
+			for _, rel := range rels {
+				rel()
+			}
+			if lateRel != nil {
+				lateRel()
+			}
+			// the full capacity is available again
+			ok := within(2*time.Second, func() {
+				var rs []func()
+				for i := 0; i < n; i++ {
+					_, rel := cl.Acquire(base)
+					rs = append(rs, rel)
+				}
+				for _, rel := range rs {
+					rel()
+				}
+			})
+			if !ok {
+				rep.Fail("impl_ne_spec", nil, cs, map[string]interface{}{"what": "free-running: after a cancelled Acquire and all releases the full capacity is not available (a token was taken for the cancelled call)"})
+				return
+			}
+		}
+		// (b) an inner limiter under a holder of the outer one
+		{
+			outer := cl.With(context.Background(), 1)
+			pctx, prel := cl.Acquire(outer)
+			k := 2 + r.Intn(3)
+			inner := cl.With(pctx, k)
+			var running, maxRunning int32
+			ok := within(3*time.Second, func() {
+				var wg sync.WaitGroup
+				for i := 0; i < k+2; i++ {
+					wg.Add(1)
+					go func() {
+						defer wg.Done()
+						_, rel := cl.Acquire(inner)
+						cur := atomic.AddInt32(&running, 1)
+						for {
+							m := atomic.LoadInt32(&maxRunning)
+							if cur <= m || atomic.CompareAndSwapInt32(&maxRunning, m, cur) {
+								break
+							}
+						}
+						time.Sleep(100 * time.Microsecond)
+						atomic.AddInt32(&running, -1)
+						rel()
+					}()
+				}
+				wg.Wait()
+			})
+			prel()
+			if !ok {
+				rep.Fail("impl_ne_spec", nil, cs, map[string]interface{}{"what": "free-running: goroutines under an inner limiter are stuck behind the outer limiter's token held by their parent", "inner": k})
+				return
+			}
+			if int(maxRunning) > k {
+				rep.Fail("impl_ne_spec", nil, cs, map[string]interface{}{"what": "free-running: more goroutines than the inner limit between Acquire and release", "inner": k, "max": maxRunning})
+				return
+			}
+		}
+		// (c) release from two goroutines at once, partners sharing a holder, some inside TemporarilyRelease
+		{
+			base := cl.With(context.Background(), n)
+			var running, maxRunning int32
+			workers := n + 3
+			ok := within(5*time.Second, func() {
+				var wg sync.WaitGroup
+				for w := 0; w < workers; w++ {
+					wg.Add(1)
+					go func(w int) {
+						defer wg.Done()
+						for it := 0; it < 30; it++ {
+							hctx, rel := cl.Acquire(base)
+							cur := atomic.AddInt32(&running, 1)
+							for {
+								m := atomic.LoadInt32(&maxRunning)
+								if cur <= m || atomic.CompareAndSwapInt32(&maxRunning, m, cur) {
+									break
+								}
+							}
+							var once sync.Once
+							leave := func() { once.Do(func() { atomic.AddInt32(&running, -1) }) }
+							var pw sync.WaitGroup
+							pw.Add(1)
+							go func() {
+								defer pw.Done()
+								if (w+it)%3 == 0 {
+									leave()
+									cl.TemporarilyRelease(hctx, func() { runtime.Gosched() })
+									return
+								}
+								leave()
+								rel()
+							}()
+							leave()
+							rel()
+							pw.Wait()
+							rel()
+						}
+					}(w)
+				}
+				wg.Wait()
+			})
+			if !ok {
+				rep.Fail("impl_ne_spec", nil, cs, map[string]interface{}{"what": "free-running: releases racing with each other (two goroutines sharing a holder): a release or an Acquire never returned", "max_running": maxRunning})
+				return
+			}
+			if int(maxRunning) > n {
+				rep.Fail("impl_ne_spec", nil, cs, map[string]interface{}{"what": "free-running: more goroutines than the limit between Acquire and release", "max": maxRunning})
+				return
+			}
+			if !within(2*time.Second, func() {
+				var rs []func()
+				for i := 0; i < n; i++ {
+					_, rel := cl.Acquire(base)
+					rs = append(rs, rel)
+				}
+				for _, rel := range rs {
+					rel()
+				}
+			}) {
+				rep.Fail("impl_ne_spec", nil, cs, map[string]interface{}{"what": "free-running: after all holders released the full capacity is not available"})
+				return
+			}
+		}
+		rep.Count("free_running_rounds")
+		rep.Eval(fmt.Sprintf("c20-free-%d-%d", n, round), true, cs)
+	}
+}
+
+// c20SegmentFacts reads concurrencylimiter.go and checks what the gated schedules rest on: between two consecutive
+// hook points of a function there is at most one sync/atomic call or channel operation (a select counts as one).
+// A segment with two of them has an interleaving point the gates cannot reach.
+func c20SegmentFacts() string {
+	repo := os.Getenv("VERIF_REPO")
+	if repo == "" {
+		repo = "/repo"
+	}
+	fset := token.NewFileSet()
+	f, err := parser.ParseFile(fset, filepath.Join(repo, "concurrencylimiter", "concurrencylimiter.go"), nil, 0)
+	if err != nil {
+		return "cannot parse concurrencylimiter.go: " + err.Error()
+	}
+	problem := ""
+	for _, d := range f.Decls {
+		fd, ok := d.(*ast.FuncDecl)
+		if !ok || fd.Body == nil {
+			continue
+		}
+		count := 0
+		inSelectComm := map[ast.Node]bool{}
+		ast.Inspect(fd.Body, func(n ast.Node) bool {
+			if n == nil || problem != "" {
+				return false
+			}
+			op := false
+			switch x := n.(type) {
+			case *ast.FuncLit:
+				count = 0 // a deferred / nested function starts its own sequence of segments
+			case *ast.SelectStmt:
+				op = true
+				for _, cc := range x.Body.List {
+					if c, ok := cc.(*ast.CommClause); ok && c.Comm != nil {
+						ast.Inspect(c.Comm, func(m ast.Node) bool {
+							if m != nil {
+								inSelectComm[m] = true
+							}
+							return true
+						})
+					}
+				}
+			case *ast.SendStmt:
+				op = !inSelectComm[n]
+			case *ast.UnaryExpr:
+				op = x.Op == token.ARROW && !inSelectComm[n]
+			case *ast.CallExpr:
+				if id, ok := x.Fun.(*ast.Ident); ok && strings.HasPrefix(id.Name, "verifAt") {
+					count = 0
+				}
+				if sel, ok := x.Fun.(*ast.SelectorExpr); ok {
+					if pk, ok := sel.X.(*ast.Ident); ok && pk.Name == "atomic" {
+						op = true
+					}
+				}
+			}
+			if op {
+				count++
+				if count > 1 {
+					problem = fmt.Sprintf("%s: two atomic / channel operations in one segment between hook points, at %s", fd.Name.Name, fset.Position(n.Pos()))
+				}
+			}
+			return true
+		})
+	}
+	return problem
+}
+
 func runC20(c *Ctx) error {
 	m, err := StartModel("C20")
 	if err != nil {
 		return err
 	}
 	defer m.Close()
-	c.Rep.Rule = "schedules of Acquire / release (repeated, early, from a second goroutine) / TemporarilyRelease (nested) / contexts without limiter or cancelled, for limits 1..3 and up to 5 holders + 5 releasers; the harness chooses the order of atomic steps through the hook gates; non-trivial = more than 3 labelled steps; distinct by step trace"
+	c.Rep.Rule = "schedules of Acquire / release (repeated, early, from a second goroutine) / TemporarilyRelease (nested) / contexts without limiter or cancelled, for limits 1..3 and up to 5 holders + 5 releasers; the harness chooses the order of atomic steps through the hook gates; non-trivial = more than 3 labelled steps; distinct by step trace; plus a free-running phase: a context cancelled while its Acquire is blocked, an inner limiter under a holder of the outer one, releases racing from two goroutines that share a holder"
 	c.Rep.Assumptions = append(c.Rep.Assumptions,
 		"each gated segment (one sync/atomic operation or one channel operation) is atomic and sequentially consistent (Go memory model)",
 		"len(ch) read through the verif hook is the channel fill between steps (no step is in flight when it is read)")
@@ -450,6 +701,11 @@ func runC20(c *Ctx) error {
 		c20Run(c, m, f.Case)
 		return nil
 	}
+	if p := c20SegmentFacts(); p != "" {
+		c.Rep.Fail("impl_ne_model", nil, map[string]interface{}{"source": "concurrencylimiter/concurrencylimiter.go"}, map[string]interface{}{"what": "the atomic steps of the code are no longer those the hook points separate (the model's steps): " + p})
+	} else {
+		c.Rep.Count("segment_facts_ok")
+	}
 	for _, sc := range c20Corpus() {
 		c20Run(c, m, sc)
 	}
@@ -457,5 +713,6 @@ func runC20(c *Ctx) error {
 	for i := 0; i < n && !c.Rep.ShouldStop(); i++ {
 		c20Run(c, m, c20Gen(c.Rng))
 	}
+	c20Free(c, c.Rng.Fork(), c.N(20, 400))
 	return nil
 }
